@@ -524,9 +524,36 @@ func (fc *FnCtx) applyContract(s *CallSite, ct *FuncContract, callee *ssa.Functi
 	if len(s.results) > 0 {
 		bind["result"] = specVal{t: s.results[0], ty: s.resT[0]}
 	}
+	for i := range s.results {
+		bind[fmt.Sprintf("result%d", i)] = specVal{t: s.results[i], ty: s.resT[i]}
+	}
 	sc2 := fc.calleeScope(ct, callee, fc.env, pre, bind)
+	ghostNames := map[string]bool{}
+	for _, g := range ct.Ghosts {
+		ghostNames[g.Name] = true
+	}
 	for _, r := range ct.Ensures {
+		if len(ghostNames) > 0 && mentions(r.E, ghostNames) {
+			continue // clauses over the callee's ghost state are internal to its proof
+		}
 		fc.assume(sc2.trBool(r.E))
+	}
+	if ct.Flags["pure"] && callee == nil {
+		// assumed pure interface method / external function: deterministic in its arguments
+		var as []Term
+		var sorts []string
+		if s.recv != nil {
+			as = append(as, *s.recv)
+		}
+		as = append(as, s.args...)
+		for _, a := range as {
+			sorts = append(sorts, string(a.Sort))
+		}
+		for i, r := range s.results {
+			name := fmt.Sprintf("pi_%s_%d", mangle(ct.Name), i)
+			fc.eng.GDecl(name, fmt.Sprintf("(declare-fun %s (%s) %s)", name, strings.Join(sorts, " "), r.Sort))
+			fc.assume(Eq(r, App(r.Sort, name, as...)))
+		}
 	}
 	if ct.Flags["pure"] && callee != nil {
 		var as []Term
@@ -868,4 +895,49 @@ func (fc *FnCtx) countReturns() int {
 		}
 	}
 	return n
+}
+
+// mentions reports whether an expression uses one of the given identifiers.
+func mentions(e Expr, names map[string]bool) bool {
+	found := false
+	var walk func(e Expr)
+	walk = func(e Expr) {
+		if e == nil || found {
+			return
+		}
+		switch x := e.(type) {
+		case *EIdent:
+			if names[x.Name] {
+				found = true
+			}
+		case *EUnary:
+			walk(x.X)
+		case *EBinary:
+			walk(x.X)
+			walk(x.Y)
+		case *ESel:
+			walk(x.X)
+		case *EIndex:
+			walk(x.X)
+			walk(x.I)
+		case *ESlice:
+			walk(x.X)
+			walk(x.Lo)
+			walk(x.Hi)
+		case *ECall:
+			for _, a := range x.Args {
+				walk(a)
+			}
+		case *EOld:
+			walk(x.X)
+		case *ECond:
+			walk(x.C)
+			walk(x.A)
+			walk(x.B)
+		case *EQuant:
+			walk(x.Body)
+		}
+	}
+	walk(e)
+	return found
 }
